@@ -1223,7 +1223,7 @@ THEOREMS = {
             'C02.canonical_order_unique', 'C02.reorient_transform_maps_back', 'C02.order_change_is_signed_perm',
             'C02.reorder_shape_perm', 'C02.axes_follow_permutation', 'C02.reordered_affine_orientation',
             'C02.stack_fill', 'C02.stack_data_trim', 'C02.stack_affine'],
-    'C11': ['Source.chk_order_check_is_cellwise', 'Source.get_shape_counts_is_model', 'Source.accept_is_counts_and_order', 'Source.translator_complete_stack', 'C11.getShape_ok_iff', 'C11.accept_count', 'C11.accept_positions', 'C11.accept_vector_blocks',
+    'C11': ['Source.chk_order_check_is_cellwise', 'Source.cells_are_model_blocks', 'Source.get_shape_accepts_iff_model', 'Source.get_shape_counts_is_model', 'Source.accept_is_counts_and_order', 'Source.translator_complete_stack', 'C11.getShape_ok_iff', 'C11.accept_count', 'C11.accept_positions', 'C11.accept_vector_blocks',
             'C11.accept_spacing', 'C11.refuse_empty', 'C11.refuse_not_factoring', 'C11.refuse_spacing',
             'C11.refuse_vector_count', 'C11.refuse_bad_volume', 'C11.f13_accepted', 'C11.f13_mixes_time',
             'C11.accept_does_not_imply_one_time', 'C11.accept_complete', 'C11.accept_complete_order',
